@@ -94,7 +94,11 @@ def rule_dispatch(ctx: Ctx, prog: Program) -> None:
                                               f"{f.qualname} passes the addresses of {reg} to solve_one's '{pn}', which elsewhere receives those of {param_reg[pn]}")
     ctx.floor("R-DISPATCH:solve_one-call-sites", sites, 4)
     if len(param_reg) != 4:
-        ctx.violation("R-DISPATCH", so.path, "solve_one", "address-params", so.loc(), f"solve_one does not receive the four address arrays (resolved {param_reg})")
+        ctx.violation("R-DISPATCH", so.path, "solve_one", "address-params", so.loc(),
+                      f"the four address arrays solve_one receives are not, at every call site, the result of get_function_addresses() taken in the calling "
+                      f"function itself (resolved {param_reg}): function addresses are those of the process that took them; kept on the solver "
+                      "object they travel with it (a worker started with the spawn / forkserver method receives the solver by pickling and calls "
+                      "through dangling pointers) and they go stale when a registry grows")
         return
     # 3. per dispatch site: compiled and interpreted branch agree on registry and index
     def check_site(fn: FuncInfo, mode_events: Dict[str, List[Tuple[Event, Interp, State]]], addr_param_reg: Dict[str, str]) -> None:
